@@ -62,9 +62,13 @@ var slots = []slot{
 	{id: fid(b6.FeatureTypeCollection, "nsb", 0)},
 }
 
-var searchKeys = []string{"#amenity", "#highway", "#a", "@lit", "@name"}
+// Keys include a key that is a prefix of another (#water / #waterway, #a / #amenity); values include non-ASCII UTF-8, the
+// characters U+007F and U+0080 first (token bytes 0x7f / 0xc2 0x80 right after the "key=" prefix), an empty value (token
+// equal to the prefix), a value containing "=" and a 300-byte value.
+var searchKeys = []string{"#amenity", "#highway", "#a", "@lit", "@name", "#water", "#waterway"}
 var plainKeys = []string{"name", "note"}
-var values = []string{"cafe", "pub", "1", "yes", "a=b", "menity", ""}
+var values = []string{"cafe", "pub", "1", "yes", "a=b", "menity", "", "\u00c9ire", "\u6771\u4eac", "\u007fdel", "\u0080x", "\U0001f600",
+	"way", strings.Repeat("v", 300)}
 
 func randTags(r *hx.Rand, max int) []b6.Tag {
 	n := r.Intn(max + 1)
@@ -344,7 +348,7 @@ func genQuery(r *hx.Rand, depth int) *qnode {
 		case x < 3:
 			return &qnode{kind: "all"}
 		case x < 12:
-			k := searchKeys[r.Intn(3)] // a # key
+			k := []string{"#amenity", "#highway", "#a", "#water", "#waterway"}[r.Intn(5)] // a # key
 			if r.Chance(1, 8) {
 				k = searchKeys[3+r.Intn(2)] // an @ key: the known class
 			}
@@ -809,7 +813,7 @@ func main() {
 	hx.RegisterChild("compact", compactChild)
 	hx.Main(hx.Family{
 		Name: "c03",
-		Rule: "universe of 16 features (7 points, 4 paths, 1 area, 2 relations, 2 collections; namespaces nsa/nsb/nsc; values 0..30 and 2^40+1) with 0-4 random tags from 5 searchable (#amenity #highway #a @lit @name) + 2 plain keys and 7 values (one containing '=', one empty), 1/4 of the points bare; case kinds round-robin: basic world, BasicMutableWorld after 0-11 random AddTag/RemoveTag/AddFeature edits, MutableOverlayWorld over a basic world after 0-13 edits, OverlayWorld of two basic worlds, MergeFeatures over 0-4 random sorted ID streams; every 25th case (built in child processes) a compact world from one file or merged from 2-3 files (each closed under references, shared features identical); per world 3-8 random query trees (depth <= 3) over all/empty/tagged/keyed/typed/and/or: FindFeatures ID list and (half of them) Query.Matches over every feature; non-trivial = a non-empty result of a query containing typed and (and|or) on a world with >= 4 features",
+		Rule: "universe of 16 features (7 points, 4 paths, 1 area, 2 relations, 2 collections; namespaces nsa/nsb/nsc; values 0..30 and 2^40+1) with 0-4 random tags from 7 searchable (#amenity #highway #a @lit @name #water #waterway; prefixes of one another) + 2 plain keys and 14 values (ASCII, non-ASCII UTF-8, U+007F / U+0080 first, one containing '=', one empty, one of 300 bytes), 1/4 of the points bare; case kinds round-robin: basic world, BasicMutableWorld after 0-11 random AddTag/RemoveTag/AddFeature edits, MutableOverlayWorld over a basic world after 0-13 edits, OverlayWorld of two basic worlds, MergeFeatures over 0-4 random sorted ID streams; every 25th case (built in child processes) a compact world from one file or merged from 2-3 files (each closed under references, shared features identical); per world 3-8 random query trees (depth <= 3) over all/empty/tagged/keyed/typed/and/or: FindFeatures ID list and (half of them) Query.Matches over every feature; non-trivial = a non-empty result of a query containing typed and (and|or) on a world with >= 4 features",
 		Quick:    2500,
 		Thorough: 20000,
 		Corpus:   corpus,
